@@ -1,1 +1,441 @@
-use vpc::{Args, Report}; pub fn run(_a:&Args,_r:&mut Report){}
+//! C26 The write circuit breaker is panic-free and bounds half-open probes.
+//!
+//! 1-3 real threads run seeded op lists over the four public methods of the real
+//! `WriteCircuitBreaker`. Hook H6 gives (a) a harness clock and (b) yield points
+//! inside the breaker; a seeded token scheduler decides which thread continues at
+//! every yield point, so every interleaving at yield-point granularity is
+//! reachable and replayable from the seed. An online monitor samples
+//! `current_state()` at every scheduling event.
+
+use std::cell::RefCell;
+use std::sync::{Arc, Condvar, Mutex};
+use std::time::Duration;
+
+use sierradb_cluster::circuit_breaker::{CircuitState, WriteCircuitBreaker};
+use vpc::{Args, Report, Rng, json};
+
+#[derive(Clone, Copy, Debug, PartialEq, Eq, Hash)]
+enum Op {
+    Allow,
+    Success,
+    Failure,
+    Recovery,
+}
+
+#[derive(Clone, Debug)]
+struct Cfg {
+    threshold: u32,
+    timeout_ms: u64,
+    max_calls: u32,
+    success_threshold: u32,
+    threads: usize,
+    ops: Vec<Vec<Op>>,
+}
+
+#[derive(Debug)]
+struct OpRec {
+    kind: Op,
+    start: u64,
+    end: Option<u64>,
+}
+
+struct Inner {
+    cur: usize,
+    alive: Vec<bool>,
+    started: Vec<bool>,
+    rng: Rng,
+    clock: u64,
+    step: u64,
+    last_state: CircuitState,
+    ops: Vec<OpRec>,
+    open_op: Vec<Option<usize>>,   // per thread: index into ops of the op in flight
+    in_open_branch: Vec<bool>,     // per thread: paused inside the Open branch of should_allow_request
+    transitioned: Vec<bool>,       // per thread: current op went through transition_to_half_open
+    episode: Option<(u64, u32)>,   // (episode id, admitted probes)
+    episodes: u64,
+    max_admitted: u32,
+    fingerprint: u64,
+    trace: Vec<String>,
+    violations: Vec<(String, String)>,
+    overlap_open_branch: bool,
+    failure_between_reads: bool,
+    clock_read_pending: Vec<bool>,
+}
+
+struct Sched {
+    inner: Mutex<Inner>,
+    cv: Condvar,
+    cb: WriteCircuitBreaker,
+    cfg: Cfg,
+}
+
+thread_local! {
+    static CURRENT: RefCell<Option<(Arc<Sched>, usize)>> = const { RefCell::new(None) };
+}
+
+fn state_name(s: CircuitState) -> &'static str {
+    match s {
+        CircuitState::Closed => "C",
+        CircuitState::Open => "O",
+        CircuitState::HalfOpen => "H",
+    }
+}
+
+impl Sched {
+    /// Monitor: called with the lock held at every scheduling event.
+    fn sample(&self, g: &mut Inner, why: &str) {
+        g.step += 1;
+        let now = self.cb.current_state();
+        let last = g.last_state;
+        if now != last {
+            g.trace.push(format!("{}:{}->{} ({why})", g.step, state_name(last), state_name(now)));
+            if last == CircuitState::Closed && now == CircuitState::Open {
+                // sound necessary condition under overlap: at least `threshold` failures
+                // that can be ordered after the last completed success
+                let t_s = g.ops.iter().filter(|o| o.kind == Op::Success && o.end.is_some()).map(|o| o.start).max().unwrap_or(0);
+                let fails = g.ops.iter().filter(|o| o.kind == Op::Failure && o.end.map(|e| e >= t_s).unwrap_or(true)).count() as u32;
+                if fails < self.cfg.threshold {
+                    g.violations.push((
+                        "C26:opened-before-threshold".into(),
+                        format!("breaker went Closed->Open at step {} with only {fails} failures after the last completed success (threshold {})", g.step, self.cfg.threshold),
+                    ));
+                }
+            }
+            if last == CircuitState::HalfOpen {
+                g.episode = None;
+            }
+            if now == CircuitState::HalfOpen {
+                g.episodes += 1;
+                g.episode = Some((g.episodes, 0));
+            }
+            g.last_state = now;
+        }
+    }
+
+    fn admit(&self, g: &mut Inner, t: usize, how: &str) {
+        if let Some((id, n)) = g.episode.as_mut() {
+            *n += 1;
+            let (id, n) = (*id, *n);
+            g.max_admitted = g.max_admitted.max(n);
+            g.trace.push(format!("{}:t{t} admitted #{n} in episode {id} ({how})", g.step));
+            if n > self.cfg.max_calls {
+                let class = if n == self.cfg.max_calls + 1 && !g.overlap_open_branch { "by-one-uncounted-transition-call" } else { "racing-transitions" };
+                g.violations.push((
+                    format!("C26:half-open-probes-exceed-max:{class}"),
+                    format!("half-open episode {id} admitted {n} probes, half_open_max_calls = {}", self.cfg.max_calls),
+                ));
+            }
+        }
+    }
+
+    fn pick_next(&self, g: &mut Inner) {
+        let alive: Vec<usize> = (0..g.alive.len()).filter(|i| g.alive[*i]).collect();
+        if alive.is_empty() {
+            return;
+        }
+        // the clock advances between scheduling events
+        if g.rng.chance(1, 3) {
+            let t = self.cfg.timeout_ms;
+            let d = *g.rng.pick(&[0, 1, t / 2, t, t + 1, 2 * t]);
+            g.clock += d;
+        }
+        let next = alive[g.rng.usize_below(alive.len())];
+        g.fingerprint = g.fingerprint.wrapping_mul(0x100000001B3) ^ (next as u64 + 1);
+        g.cur = next;
+    }
+
+    fn yield_point(self: &Arc<Self>, t: usize, name: &'static str) {
+        let mut g = self.inner.lock().unwrap();
+        self.sample(&mut g, name);
+        match name {
+            "cb.allow.after_clock" | "cb.recovery.after_clock" => {
+                g.in_open_branch[t] = name == "cb.allow.after_clock";
+                g.clock_read_pending[t] = true;
+                if (0..g.alive.len()).any(|o| o != t && g.in_open_branch[o]) {
+                    g.overlap_open_branch = true;
+                }
+            }
+            "cb.half_open.enter" => {
+                g.transitioned[t] = true;
+            }
+            _ => {}
+        }
+        g.fingerprint = g.fingerprint.wrapping_mul(0x100000001B3) ^ vpc::hash_of(name);
+        self.pick_next(&mut g);
+        self.cv.notify_all();
+        while g.cur != t {
+            g = self.cv.wait(g).unwrap();
+        }
+        g.clock_read_pending[t] = false;
+    }
+
+    fn op_start(self: &Arc<Self>, t: usize, kind: Op) {
+        let mut g = self.inner.lock().unwrap();
+        self.sample(&mut g, "op-start");
+        let start = g.step;
+        g.ops.push(OpRec { kind, start, end: None });
+        let idx = g.ops.len() - 1;
+        g.open_op[t] = Some(idx);
+        g.transitioned[t] = false;
+        if kind == Op::Failure && (0..g.alive.len()).any(|o| o != t && g.clock_read_pending[o]) {
+            g.failure_between_reads = true;
+        }
+    }
+
+    fn op_end(self: &Arc<Self>, t: usize, kind: Op, allowed: Option<bool>) {
+        let mut g = self.inner.lock().unwrap();
+        self.sample(&mut g, "op-end");
+        let step = g.step;
+        if let Some(i) = g.open_op[t].take() {
+            g.ops[i].end = Some(step);
+        }
+        g.in_open_branch[t] = false;
+        if kind == Op::Allow && allowed == Some(true) {
+            // The tail of every call (from its last yield point to its return) runs without
+            // interruption under the token scheduler, so the state visible now is the state
+            // the call was admitted in. Admissions in Closed state are not probes.
+            if self.cb.current_state() == CircuitState::HalfOpen {
+                let how = if g.transitioned[t] { "call went through the Open->HalfOpen transition" } else { "half-open branch" };
+                self.admit(&mut g, t, how);
+            }
+        }
+        // hand the token on between operations too
+        self.pick_next(&mut g);
+        self.cv.notify_all();
+        while g.cur != t {
+            g = self.cv.wait(g).unwrap();
+        }
+    }
+
+    fn finish(self: &Arc<Self>, t: usize) {
+        let mut g = self.inner.lock().unwrap();
+        g.alive[t] = false;
+        g.in_open_branch[t] = false;
+        g.clock_read_pending[t] = false;
+        self.pick_next(&mut g);
+        self.cv.notify_all();
+    }
+
+    fn clock(&self) -> u64 {
+        self.inner.lock().unwrap().clock
+    }
+}
+
+pub fn install_hooks() {
+    sierradb_cluster::verif::install(Box::new(|name, _| {
+        let cur = CURRENT.with(|c| c.borrow().clone());
+        if let Some((s, t)) = cur {
+            s.yield_point(t, name);
+        }
+    }));
+    sierradb_cluster::verif::install_clock(Box::new(|| {
+        let cur = CURRENT.with(|c| c.borrow().clone());
+        cur.map(|(s, _)| s.clock())
+    }));
+}
+
+fn gen_cfg(rng: &mut Rng) -> Cfg {
+    let threads = 1 + rng.usize_below(3);
+    let n_ops = 4 + rng.usize_below(20);
+    let ops = (0..threads)
+        .map(|_| {
+            (0..n_ops)
+                .map(|_| match rng.below(10) {
+                    0..=3 => Op::Allow,
+                    4..=5 => Op::Success,
+                    6..=8 => Op::Failure,
+                    _ => Op::Recovery,
+                })
+                .collect()
+        })
+        .collect();
+    Cfg {
+        threshold: 1 + rng.below(4) as u32,
+        timeout_ms: *rng.pick(&[0u64, 1, 5, 50]),
+        max_calls: 1 + rng.below(3) as u32,
+        success_threshold: 1 + rng.below(3) as u32,
+        threads,
+        ops,
+    }
+}
+
+struct Outcome {
+    violations: Vec<(String, String)>,
+    trace: Vec<String>,
+    fingerprint: u64,
+    nontrivial: bool,
+    episodes: u64,
+    max_admitted: u32,
+    overlap: bool,
+    failure_between: bool,
+}
+
+fn run_schedule(cfg: &Cfg, sched_seed: u64) -> Outcome {
+    // the constructor reads the clock: give the main thread a context too
+    let boot = Arc::new(Sched {
+        inner: Mutex::new(Inner {
+            cur: usize::MAX,
+            alive: vec![true; cfg.threads],
+            started: vec![false; cfg.threads],
+            rng: Rng::new(sched_seed),
+            clock: 1_000_000,
+            step: 0,
+            last_state: CircuitState::Closed,
+            ops: Vec::new(),
+            open_op: vec![None; cfg.threads],
+            in_open_branch: vec![false; cfg.threads],
+            transitioned: vec![false; cfg.threads],
+            episode: None,
+            episodes: 0,
+            max_admitted: 0,
+            fingerprint: 0xcbf29ce484222325,
+            trace: Vec::new(),
+            violations: Vec::new(),
+            overlap_open_branch: false,
+            failure_between_reads: false,
+            clock_read_pending: vec![false; cfg.threads],
+        }),
+        cv: Condvar::new(),
+        cb: WriteCircuitBreaker::new(cfg.threshold, Duration::from_millis(cfg.timeout_ms), cfg.max_calls, cfg.success_threshold),
+        cfg: cfg.clone(),
+    });
+    let sched = boot;
+    {
+        let mut g = sched.inner.lock().unwrap();
+        sched.pick_next(&mut g);
+    }
+    let mut handles = Vec::new();
+    for t in 0..cfg.threads {
+        let s = sched.clone();
+        let ops = cfg.ops[t].clone();
+        handles.push(std::thread::spawn(move || {
+            CURRENT.with(|c| *c.borrow_mut() = Some((s.clone(), t)));
+            {
+                let mut g = s.inner.lock().unwrap();
+                g.started[t] = true;
+                while g.cur != t {
+                    g = s.cv.wait(g).unwrap();
+                }
+            }
+            let res = std::panic::catch_unwind(std::panic::AssertUnwindSafe(|| {
+                for op in ops {
+                    s.op_start(t, op);
+                    let allowed = match op {
+                        Op::Allow => Some(s.cb.should_allow_request()),
+                        Op::Success => { s.cb.record_success(); None }
+                        Op::Failure => { s.cb.record_failure(); None }
+                        Op::Recovery => { let _ = s.cb.estimated_recovery_time(); None }
+                    };
+                    s.op_end(t, op, allowed);
+                }
+            }));
+            if res.is_err() {
+                let mut g = s.inner.lock().unwrap();
+                let which = g.open_op[t].map(|i| format!("{:?}", g.ops[i].kind)).unwrap_or_default();
+                let site = vpc::last_panic();
+                let class = if site.contains("subtract with overflow") { "subtract-overflow" } else { "other" };
+                g.violations.push((format!("C26:panic:{class}"), format!("panic in {which}: {site}")));
+            }
+            CURRENT.with(|c| *c.borrow_mut() = None);
+            s.finish(t);
+        }));
+    }
+    for h in handles {
+        let _ = h.join();
+    }
+    let g = sched.inner.lock().unwrap();
+    Outcome {
+        violations: g.violations.clone(),
+        trace: g.trace.clone(),
+        fingerprint: g.fingerprint,
+        nontrivial: g.overlap_open_branch || g.failure_between_reads,
+        episodes: g.episodes,
+        max_admitted: g.max_admitted,
+        overlap: g.overlap_open_branch,
+        failure_between: g.failure_between_reads,
+    }
+}
+
+fn cfg_json(c: &Cfg) -> vpc::Value {
+    json!({"failure_threshold": c.threshold, "recovery_timeout_ms": c.timeout_ms, "half_open_max_calls": c.max_calls,
+           "half_open_success_threshold": c.success_threshold, "threads": c.threads,
+           "ops": c.ops.iter().map(|v| v.iter().map(|o| format!("{o:?}")).collect::<Vec<_>>()).collect::<Vec<_>>()})
+}
+
+fn run_case(rep: &mut Report, case_seed: u64) {
+    let mut rng = Rng::new(case_seed);
+    let cfg = gen_cfg(&mut rng);
+    let sched_seed = rng.next_u64();
+    let out = run_schedule(&cfg, sched_seed);
+    rep.evaluations += 1;
+    rep.count("half_open_episodes", out.episodes);
+    rep.max("probes_admitted_in_one_episode", out.max_admitted as u64);
+    if out.overlap { rep.count("schedules_two_threads_in_open_branch", 1); }
+    if out.failure_between { rep.count("schedules_failure_between_clock_read_and_load", 1); }
+    if out.nontrivial {
+        rep.nontrivial(&out.fingerprint);
+    }
+    for (sig, what) in &out.violations {
+        rep.violation(sig, what.clone(), json!({"case_seed": case_seed, "config": cfg_json(&cfg), "state_trace": out.trace.iter().take(60).collect::<Vec<_>>()}));
+    }
+    if rep.want_sample() && out.episodes > 0 {
+        rep.sample(json!({"case_seed": case_seed, "config": cfg_json(&cfg), "state_trace": out.trace.iter().take(12).collect::<Vec<_>>()}));
+    }
+}
+
+/// Free-running stress on the real clock (no token scheduler): panic monitor only.
+fn stress(rep: &mut Report, seed: u64, millis: u64) {
+    let cb = Arc::new(WriteCircuitBreaker::new(2, Duration::from_millis(1), 2, 1));
+    let stop = Arc::new(std::sync::atomic::AtomicBool::new(false));
+    let mut hs = Vec::new();
+    for t in 0..3u64 {
+        let cb = cb.clone();
+        let stop = stop.clone();
+        hs.push(std::thread::spawn(move || {
+            let mut rng = Rng::new(seed ^ t);
+            let mut n = 0u64;
+            let r = std::panic::catch_unwind(std::panic::AssertUnwindSafe(|| {
+                while !stop.load(std::sync::atomic::Ordering::Relaxed) {
+                    match rng.below(4) {
+                        0 => { cb.should_allow_request(); }
+                        1 => cb.record_success(),
+                        2 => cb.record_failure(),
+                        _ => { cb.estimated_recovery_time(); }
+                    }
+                    n += 1;
+                }
+            }));
+            (n, r.is_err())
+        }));
+    }
+    std::thread::sleep(Duration::from_millis(millis));
+    stop.store(true, std::sync::atomic::Ordering::Relaxed);
+    for h in hs {
+        let (n, panicked) = h.join().unwrap();
+        rep.count("stress_ops", n);
+        if panicked {
+            let site = vpc::last_panic();
+            let class = if site.contains("subtract with overflow") { "subtract-overflow" } else { "other" };
+            rep.violation(&format!("C26:panic:{class}"), format!("free-running stress: {site}"), json!({"mode": "stress", "seed": seed}));
+        }
+    }
+}
+
+pub fn run(args: &Args, rep: &mut Report) {
+    vpc::quiet_panics();
+    install_hooks();
+    if let Some(w) = args.load_replay() {
+        if let Some(cs) = w["witness"]["case_seed"].as_u64() {
+            run_case(rep, cs);
+        }
+        return;
+    }
+    let thorough = args.tier.is_thorough();
+    let max_cases = if thorough { u64::MAX } else { 20_000 };
+    let mut case = 0u64;
+    while args.time_left() && case < max_cases {
+        case += 1;
+        run_case(rep, args.case_seed(case));
+    }
+    stress(rep, args.shard_seed(), if thorough { 3000 } else { 300 });
+}
